@@ -790,6 +790,7 @@ pub fn c16_numeric(prop: &'static str, case: &ProgCase, lm: &LogicalMovie, bytes
     };
     // timing fields, exact in 128-bit arithmetic
     let mut totals: Vec<(String, i128)> = Vec::new();
+    let mut elst_spans: Vec<Option<i128>> = Vec::new();
     for (name, t, want) in [("video", video_track(&p.movie), &lm.video), ("audio", audio_track(&p.movie), &lm.audio)] {
         let t = match t {
             Some(t) => t,
@@ -838,6 +839,8 @@ pub fn c16_numeric(prop: &'static str, case: &ProgCase, lm: &LogicalMovie, bytes
             return out;
         }
         totals.push((name.to_string(), total));
+        // with an edit list the track's span on the movie timeline is the sum of its edits (movie timescale)
+        elst_spans.push(t.elst.as_ref().map(|e| e.iter().map(|x| x.0 as i128).sum::<i128>()));
     }
     // movie duration in the movie timescale: floor/round/ceil of the video or the longest track
     if p.movie.mvhd_timescale > 0 && !totals.is_empty() {
@@ -845,6 +848,24 @@ pub fn c16_numeric(prop: &'static str, case: &ProgCase, lm: &LogicalMovie, bytes
         let mut ok = false;
         let mut cands = Vec::new();
         let longest = totals.iter().map(|t| t.1).max().unwrap();
+        if elst_spans.iter().any(|e| e.is_some()) {
+            for r in 0..3 {
+                let span = |k: usize| -> i128 {
+                    match elst_spans[k] {
+                        Some(s) => s,
+                        None => {
+                            let num = totals[k].1 * ts;
+                            [num / 90000, (num + 89999) / 90000, (num + 45000) / 90000][r]
+                        }
+                    }
+                };
+                let c = (0..totals.len()).map(span).max().unwrap();
+                cands.push(c);
+                if p.movie.mvhd_duration as i128 == c {
+                    ok = true;
+                }
+            }
+        }
         for base in [totals[0].1, longest] {
             let num = base * ts;
             let fl = num / 90000;
